@@ -154,7 +154,10 @@ def run(c, chk):
             own_first = True
     rec_arg_ok = all(sym.render(e.args[0]) in ('p->next', 'p') for p in paths for e in p.events if e.kind == 'call' and e.name in fam) and \
         any(sym.render(e.args[0]) == 'p->next' for p in paths for e in p.events if e.kind == 'call' and e.name in fam)
-    if prepend and recurse_first and not own_first and rec_arg_ok:
+    if prepend and append:
+        chk.fail('R17.2', 'entries-relinked', c.where(add), 'cfg_add_searchpath() links a freshly allocated entry in front of the list on some successful paths and rearranges existing '
+                 'entries on others: a directory that is on the list already changes its place, so the order of the search is no longer the order in which the directories were first added')
+    elif prepend and recurse_first and not own_first and rec_arg_ok:
         chk.ok('R17.2', 'order', 'add prepends; search visits p->next (older directories) before its own directory: oldest first', sample=True)
     elif append and own_first and not recurse_first and not prepend:
         chk.ok('R17.2', 'order', 'add appends; search tests its own directory before the rest: oldest first')
@@ -375,6 +378,10 @@ def run(c, chk):
         from . import c13 as _c13, c08 as _c08
         chk.rule('R17.9', 'the search path reaches every section: an include inside a section resolves like one at top level')
         _c13.section_path(c, _c08.chk_proxy(chk, {'R13.8': 'R17.9'}))
+        # R17.14: "deterministically": the answer is a function of the name, the search path and the file system - not of what
+        # was looked up before (a remembered last answer is a mutable global under no reset discipline: rule R8.0 of C08)
+        chk.rule('R17.14', 'name resolution keeps no memory: neither unit has a mutable global outside the reset disciplines (rule R8.0 of C08; a cache of the last lookup is one)')
+        _c08.classified_globals(c, chk, rid='R17.14', rid5='R17.14')
 
     # ---- R17.6 ---------------------------------------------------------------------------------
     resolution_idiom(c, chk, ex)
